@@ -19,6 +19,7 @@ def run(ctx):
     rp = ctx.rule('C14.P1', 'the address version used when verifying follows the selected chain (read at call time)', engine='OWN', floor=1)
     common.rule_call_time_params(rp, repo, files={'bitcoin/wallet.py', 'bitcoin/signmessage.py'})
     c04.common_hash_rule(ctx, repo, 'C14.H1')
+    rule_recid_split(ctx, repo)
     r_ = ctx.rule('C14.I2', 'the compact signature is indexed only behind its length test', engine='GUARD', floor=1)
     fs_ = [f for q, f in sorted(repo.functions.items()) if q.startswith(('bitcoin.core.key.CPubKey.recover_compact', 'bitcoin.core.key.CECKey.recover', 'bitcoin.signmessage.'))]
     common.const_index_instances(r_, repo, fs_, what='a signature of another length raises IndexError instead of being refused')
@@ -31,6 +32,53 @@ def run(ctx):
         i_.rule = 'C14.K2'
     ctx.not_decided += ['public-key recovery mathematics (libcrypto)', 'that a different key or message yields a different recovered key (ECDSA)']
     ctx.assume('libcrypto implements SEC1 recovery; base64 is lossless')
+
+
+def rule_recid_split(ctx, repo):
+    """SEC1 4.1.6: the recovery id is two numbers - j = recid // 2 selects x = r + j*n, recid % 2 the parity of y.  Both are
+    taken apart in Python before libcrypto does the mathematics; decided as arithmetic normal forms."""
+    from ..rules import canon_arith
+    r = ctx.rule('C14.R1', 'CECKey.recover splits the recovery id as SEC1 does: x-offset recid // 2, y parity recid % 2', engine='RULES', floor=2)
+    fi = repo.get_function('bitcoin.core.key.CECKey.recover')
+    rid = fi.params[5] if len(fi.params) > 5 else 'recid'
+
+    def ca(e):
+        # int(a / 2**k) on a small non-negative integer is a // 2**k
+        class T(ast.NodeTransformer):
+            def visit_Call(self, n):
+                n = self.generic_visit(n)
+                if isinstance(n.func, ast.Name) and n.func.id == 'int' and len(n.args) == 1 and isinstance(n.args[0], ast.BinOp) and isinstance(n.args[0].op, ast.Div):
+                    return ast.BinOp(left=n.args[0].left, op=ast.FloorDiv(), right=n.args[0].right)
+                return n
+        try:
+            return str(canon_arith(T().visit(ast.parse(ast.unparse(e), mode='eval').body)))
+        except Exception:
+            return norm(e)
+    # the multiplier of the group order
+    mul = [c for c in common.iter_calls(fi.node) if norm(c.func) == '_ssl.BN_mul_word' and len(c.args) == 2]
+    if len(mul) != 1:
+        r.undecided('x-offset', fi.site, 'no single BN_mul_word(x, j)')
+    else:
+        j = common.resolved(fi, mul[0].args[1], repo)
+        want = ca(ast.parse('%s // 2' % rid, mode='eval').body)
+        got = ca(j)
+        if got == want:
+            r.ok('x-offset', common.site_of(fi, mul[0]), 'x = r + (recid // 2) * n')
+        elif rid in norm(j):
+            r.violated('x-offset', common.site_of(fi, mul[0]), 'the group order is multiplied by `%s`; SEC1: j = recid // 2 (recovery ids 2 and 3 select x = r + n)' % norm(j))
+        else:
+            r.undecided('x-offset', common.site_of(fi, mul[0]), 'the multiplier of the group order is `%s`' % norm(j))
+    par = [c for c in common.iter_calls(fi.node) if 'set_compressed_coordinates' in norm(c.func)]
+    if len(par) != 1 or len(par[0].args) < 4:
+        r.undecided('y-parity', fi.site, 'no single EC_POINT_set_compressed_coordinates call')
+    else:
+        y = common.resolved(fi, par[0].args[3], repo)
+        if ca(y) == ca(ast.parse(rid + ' % 2', mode='eval').body):
+            r.ok('y-parity', common.site_of(fi, par[0]), 'y parity = recid % 2')
+        elif rid in norm(y):
+            r.violated('y-parity', common.site_of(fi, par[0]), 'the y parity handed to libcrypto is `%s`; SEC1: recid % 2' % norm(y))
+        else:
+            r.undecided('y-parity', common.site_of(fi, par[0]), 'the y parity handed to libcrypto is `%s`' % norm(y))
 
 
 def rule_digest(ctx, repo, eng):
